@@ -650,7 +650,14 @@ class QvmCpu:
 
         base_idx = array_ref.index
 
-        array_n_dims = array_ref.segment.get_cell(base_idx + 1).value
+        array_n_dims = array_ref.segment.get_cell(base_idx + 1)
+        if array_n_dims is None:
+            # the DIM statement of a static array has not been executed
+            # (jumped over): the array has no header yet
+            self.trap(
+                TrapCode.UNINITIALIZED_MEM,
+                msg='Array memory is uninitialized')
+        array_n_dims = array_n_dims.value
         if array_n_dims != n_indices:
             self.trap(TrapCode.INVALID_DIMENSIONS,
                       expected=array_n_dims,
